@@ -169,8 +169,23 @@ CHEAP_FAMS = ["explicit_fixed", "explicit_fixed", "explicit_adaptive", "explicit
 def gen_C03(seed):
     r = sub(seed, "ops")
     fams = r.choice([CHEAP_FAMS, CHEAP_FAMS, ALL_FAMS])
-    scn, direction = base_scenario(seed, "C03", fams)
+    with_events = r.random() < 0.2
+    big = r.random() < 0.004            # outgrow the real 5000-row pre-allocation (no knob)
+    if big:
+        fams = ["explicit_fixed"]
+    scn, direction = base_scenario(seed, "C03", fams, family="osc" if with_events else None)
     s = scn["system"]
+    if big:
+        s["method"] = "EulerSolver"
+        scn["knobs"].pop("alloc_cap", None)
+        s["dt"] = abs(s["tf"] - s["t0"]) / r.choice([5003, 5600, 10007])
+        s["dense"] = False
+        scn["budget"] = 400000
+    if with_events:
+        # non-terminal events: event-triggered buffer growth together with the small buffer cap
+        scn["events"] = gen_events(r, scn, r.choice([1, 2, 4]), terminal_prob=0.0)
+        if "alloc_cap" not in scn["knobs"]:
+            scn["knobs"]["alloc_cap"] = r.choice([1, 2, 3])
     t0, tf = s["t0"], s["tf"]
     L = abs(tf - t0)
     if r.random() < 0.2:
@@ -192,9 +207,14 @@ def gen_C03(seed):
             tgt = round(cur - direction * r.uniform(0.1, 0.6) * L / nops, 6)     # behind the current time: reversal
         ops.append({"op": "integrate", "t": tgt})
         cur = tgt
+    if big:
+        ops = [{"op": "integrate"}]
+    if with_events:
+        for op in ops:
+            op["events"] = list(range(len(scn["events"])))
     scn["ops"] = ops
     if r.random() < 0.15:
-        scn["faults"].append({"op": r.randrange(len(ops)), "seam": "alloc", "at": 1, "kind": "memerr"})
+        scn["faults"].append({"op": r.randrange(len(ops)), "seam": "alloc", "at": r.choice([1, 1, 2, 3]), "kind": "memerr"})
     return scn
 
 
